@@ -54,6 +54,13 @@ FAMILIES = {
     "reasons": (gen_cfg("SEQ", caps="{100000}", kinds='{"resp"}', maxlen=0, cfgs="{0, 2}", L='"REASONS"'), 2, 4),
     "dict_q": (gen_cfg("SEQ", caps="{1, 100000}", kinds='{"req", "resp", "hdrs"}', phases='{"HLINE"}', cfgs="{0, 49, 94}", maxlen=20, L='"DICT"'), 4, 3),
     "prefaces": (gen_cfg("SEQ", caps="{1, 100000}", kinds='{"req", "resp"}', maxlen=0, cfgs="{0, 1, 2}", L='"PREFACES"'), 1, 4),
+    # multi-byte look-alikes of white space / line ends / NUL from every abstract state
+    "unispace": (gen_cfg("SEQ", caps="{1, 100000}", maxlen=100000, L='"UNISPACE"'), 8, 2),
+    # long fields of 4-byte / 3-byte UTF-8 characters whose lead byte visits every block offset
+    "laneu4_q": (gen_cfg("LANE", caps="{100000}", follow="{10}", L="330", lanebytes="{10, 32, 127}", fillmode="utf84",
+                         phases='{"TARGET", "VALUE", "REASON"}', cfgs="{0}"), 4, 3),
+    "laneu3_q": (gen_cfg("LANE", caps="{100000}", follow="{10}", L="330", lanebytes="{10, 32, 127}", fillmode="utf83",
+                         phases='{"TARGET", "VALUE", "REASON"}', cfgs="{0}"), 4, 3),
     "versions": (gen_cfg("SEQ", caps="{100000}", kinds='{"req", "resp"}', maxlen=0, cfgs="{0, 1, 2}", L='"VERSIONS"'), 2, 4),
     # ---------------- thorough tier
     "byte_t": (gen_cfg("BYTE", caps="{0, 1, 2, 100000}", follow="{10, 13, 32, 58, 97}"), 8, 2),
